@@ -79,7 +79,7 @@ fn nontrivial(prop: &str, r: &RunReport) -> bool {
         "C05" => f("c05_dead_lookup_seen_before") > 0,
         "C06" => f("c06_dead_after_observation") > 0,
         "C07" => f("c07_nontrivial") > 0,
-        "C08" => f("c08_two_incarnations") > 0 || f("c08_removed_with_queue") > 0 || r.probes.contains_key("admit.victim_skipped") || f("relaxed_after_callback_panic") > 0 || f("c12_evictions") > 0,
+        "C08" => f("c08_two_incarnations") > 0 || f("c08_removed_with_queue") > 0 || r.probes.contains_key("admit.victim_skipped") || f("relaxed_after_callback_panic") > 0 || f("c12_evictions") > 0 || r.probes.contains_key("sketch.reset"),
         "C09" => f("write_channel_full") > 0 || f("parked_in_sync_steps") > 0 || r.ops > 400,
         "C10" => f("c10_checks_after_removal") > 0,
         "C11" => f("c11_dropped_with_queue") > 0 || f("c10_checks_after_removal") > 0,
